@@ -21,15 +21,30 @@ func Scenarios(thorough bool) map[string]*Scenario {
 	// two traffic steps with different replicas (a step jump must not route step k's traffic before its pods)
 	m["Q02b"] = &Scenario{ID: "Q02b", Kind: "CloneSet", Style: "partition", Replicas: 3, Traffic: "ingress", Grace: 1,
 		Steps: []StepSpec{{Replicas: "1", Traffic: "20%"}, {Replicas: "2", Traffic: "50%"}, {Replicas: "100%"}}}
+	// three traffic steps: a jump from step one to step three is a real jump onto a step with a weight
+	m["Q02d"] = &Scenario{ID: "Q02d", Kind: "CloneSet", Style: "partition", Replicas: 3, Traffic: "ingress", Grace: 1,
+		Steps: []StepSpec{{Replicas: "1", Traffic: "20%"}, {Replicas: "2", Traffic: "50%"}, {Replicas: "3", Traffic: "80%"}}}
 	// CloneSet partition + Gateway API HTTPRoute
 	m["Q03"] = &Scenario{ID: "Q03", Kind: "CloneSet", Style: "partition", Replicas: 3, Traffic: "gateway", Grace: 1,
 		Steps: []StepSpec{{Replicas: "1", Traffic: "20%"}, {Replicas: "100%"}}}
 	// a stale canary Service left behind by an earlier, interrupted rollout
 	m["Q02s"] = &Scenario{ID: "Q02s", Kind: "CloneSet", Style: "partition", Replicas: 3, Traffic: "ingress", Grace: 1, StaleCanaryService: true,
 		Steps: []StepSpec{{Replicas: "1", Traffic: "20%"}, {Replicas: "100%"}}}
+	// a one-replica workload: a 50% step with traffic already covers every replica
+	m["Q02c"] = &Scenario{ID: "Q02c", Kind: "CloneSet", Style: "partition", Replicas: 1, Traffic: "ingress", Grace: 1,
+		Steps: []StepSpec{{Replicas: "50%", Traffic: "20%"}, {Replicas: "100%"}}}
+	// rollback in batches (annotation on the Rollout; CloneSet, no traffic routing)
+	m["Q04"] = &Scenario{ID: "Q04", Kind: "CloneSet", Style: "partition", Replicas: 3, RollbackInBatch: true,
+		Steps: []StepSpec{{Replicas: "1"}, {Replicas: "2"}, {Replicas: "3"}}}
+	// releases tagged with a rollout-id (pods are labelled per batch and readiness counts labels); 50% of 3 is fractional
+	m["Q01r"] = &Scenario{ID: "Q01r", Kind: "CloneSet", Style: "partition", Replicas: 3, RolloutID: true,
+		Steps: []StepSpec{{Replicas: "50%"}, {Replicas: "100%"}}}
 	// mixed plan: an absolute step followed by percentage steps
 	m["Q01c"] = &Scenario{ID: "Q01c", Kind: "CloneSet", Style: "partition", Replicas: 4,
 		Steps: []StepSpec{{Replicas: "1"}, {Replicas: "50%"}, {Replicas: "100%"}}}
+	// native StatefulSet, partition style (ordered update from the highest ordinal down)
+	m["Q10"] = &Scenario{ID: "Q10", Kind: "StatefulSet", Style: "partition", Replicas: 3,
+		Steps: []StepSpec{{Replicas: "1"}, {Replicas: "2"}, {Replicas: "3"}}}
 	// Deployment canary style (extra canary Deployment) + nginx Ingress; last step covers all replicas with traffic
 	m["Q05"] = &Scenario{ID: "Q05", Kind: "Deployment", Style: "canary", Replicas: 3, Traffic: "ingress", Grace: 1,
 		Steps: []StepSpec{{Replicas: "1", Traffic: "20%"}, {Replicas: "3", Traffic: "50%"}}}
@@ -64,8 +79,8 @@ type PropertyPlan struct {
 	// liveness analysis; only crash-type disturbances apply there.
 	LiveScenarios []string
 	// Relabel: violations of the shared monitors are reported under this property (C06 runs all of them).
-	Relabel bool
-	StateCap     int
+	Relabel  bool
+	StateCap int
 }
 
 func Plans(thorough bool) map[string]PropertyPlan {
@@ -78,28 +93,28 @@ func Plans(thorough bool) map[string]PropertyPlan {
 		u = 2
 	}
 	return map[string]PropertyPlan{
-		"C01": {Scenarios: []string{"Q01", "Q01b", "Q01c", "Q05", "Q07", "Q08"}, Actions: []string{"scaleUp", "scaleDown", "editPlanInts", "editPlanMore", "jump(1)", "jump(3)", "pause", "resume"}, MaxUser: u,
+		"C01": {Scenarios: []string{"Q01", "Q01b", "Q01c", "Q05", "Q07", "Q08", "Q10"}, Actions: []string{"scaleUp", "scaleDown", "editPlanInts", "editPlanLow", "editPlanMore", "jump(1)", "jump(3)", "pause", "resume"}, MaxUser: u,
 			FreeQueues: true, StateCap: capQ, Monitors: func(w *World, sc *Scenario) []Monitor { return []Monitor{ExposureMonitor{}} }},
-		"C02": {Scenarios: []string{"Q01", "Q01b", "Q05", "Q08"}, Actions: []string{"pause", "resume", "editPlanMore"}, MaxUser: u, Disturbances: []string{"crash", "midcrash"}, MaxDisturb: 1,
+		"C02": {Scenarios: []string{"Q01", "Q01b", "Q04", "Q05", "Q08"}, Actions: []string{"pause", "resume", "editPlanMore", "rollback"}, MaxUser: u, Disturbances: []string{"crash", "midcrash"}, MaxDisturb: 1,
 			FreeQueues: true, StateCap: capQ, Monitors: func(w *World, sc *Scenario) []Monitor { return []Monitor{StepMonitor{}} }},
-		"C11": {Scenarios: []string{"Q01", "Q01b", "Q05", "Q05r", "Q07", "Q08"}, Actions: []string{"scaleUp", "scaleDown", "editPlanMore", "degrade"}, MaxUser: u,
+		"C11": {Scenarios: []string{"Q01", "Q01b", "Q01r", "Q05", "Q05r", "Q07", "Q08", "Q10"}, Actions: []string{"scaleUp", "scaleDown", "editPlanMore", "degrade", "jump(1)"}, MaxUser: u,
 			FreeQueues: true, StateCap: capQ, Monitors: func(w *World, sc *Scenario) []Monitor { return []Monitor{BatchStatusMonitor{}} }},
-		"C03": {Scenarios: []string{"Q02", "Q02b", "Q03", "Q05", "Q08"}, Actions: []string{"jump(2)", "jump(3)", "jump(1)", "editPlanMore", "scaleUp"}, MaxUser: u,
+		"C03": {Scenarios: []string{"Q02", "Q02d", "Q03", "Q05", "Q08"}, Actions: []string{"jump(2)", "jump(3)", "jump(1)", "editPlanMore", "scaleUp"}, MaxUser: u,
 			FreeQueues: true, StateCap: capQ, Monitors: func(w *World, sc *Scenario) []Monitor { return []Monitor{TrafficOrderMonitor{}} }},
-		"C04": {Scenarios: []string{"Q02", "Q02s", "Q03", "Q05", "Q08"}, Actions: []string{"rollback", "release3", "disable", "deleteRollout", "jump(2)"}, MaxUser: u, Disturbances: []string{"crash"}, MaxDisturb: 1,
+		"C04": {Scenarios: []string{"Q02", "Q02c", "Q02s", "Q03", "Q05", "Q08"}, Actions: []string{"rollback", "release3", "disable", "deleteRollout", "jump(2)"}, MaxUser: u, Disturbances: []string{"crash"}, MaxDisturb: 1,
 			FreeQueues: true, StateCap: capQ, Monitors: func(w *World, sc *Scenario) []Monitor { return []Monitor{VoidMonitor{}} }},
 		"C10": {Scenarios: []string{"Q02", "Q05", "Q08"}, Actions: []string{"rollback", "release3"}, MaxUser: 1, Disturbances: []string{"crash", "midcrash"}, MaxDisturb: 1,
 			FreeQueues: true, StateCap: capQ, Monitors: func(w *World, sc *Scenario) []Monitor { return []Monitor{RollbackOrderMonitor{}} }},
-		"C05": {Scenarios: []string{"Q02", "Q01b", "Q03", "Q05", "Q08"}, Actions: []string{"rollback", "disable", "deleteRollout", "editPlanMore"}, MaxUser: u,
+		"C05": {Scenarios: []string{"Q02", "Q01b", "Q03", "Q05", "Q08", "Q10"}, Actions: []string{"rollback", "disable", "deleteRollout", "editPlanMore", "deleteCanary"}, MaxUser: u,
 			FreeQueues: true, StateCap: capQ, Monitors: func(w *World, sc *Scenario) []Monitor { return []Monitor{&ExitMonitor{Base: CaptureBaseline(w, sc)}} }},
 		"C18": {Scenarios: []string{"Q02", "Q01b", "Q05"}, Actions: []string{"deleteRollout", "deleteWorkload"}, MaxUser: 2, Disturbances: []string{"crash", "midcrash", "error"}, MaxDisturb: 1,
 			FreeQueues: true, StateCap: capQ, Monitors: func(w *World, sc *Scenario) []Monitor { return []Monitor{FinalizerMonitor{}} }},
-		"C07": {Scenarios: []string{"Q01", "Q01b", "Q01c", "Q02", "Q03", "Q05", "Q05r", "Q07", "Q08"}, Actions: nil, MaxUser: 0,
+		"C07": {Scenarios: []string{"Q01", "Q01b", "Q01c", "Q01r", "Q02", "Q03", "Q05", "Q05r", "Q07", "Q08", "Q10"}, Actions: nil, MaxUser: 0,
 			FreeQueues: false, Liveness: true, StateCap: capQ, Monitors: func(w *World, sc *Scenario) []Monitor { return []Monitor{PanicMonitor{}} }},
-		"C06": {Scenarios: []string{"Q02", "Q01b"}, Actions: nil, MaxUser: 0, Disturbances: []string{"crash", "midcrash", "error", "conflict"}, MaxDisturb: 1,
+		"C06": {Scenarios: []string{"Q02", "Q01b", "Q08"}, Actions: nil, MaxUser: 0, Disturbances: []string{"crash", "midcrash", "error", "conflict"}, MaxDisturb: 1,
 			FreeQueues: true, StateCap: capQ, Relabel: true, LiveScenarios: []string{"Q01b"},
 			Monitors: func(w *World, sc *Scenario) []Monitor {
-				return []Monitor{ExposureMonitor{}, StepMonitor{}, BatchStatusMonitor{}, TrafficOrderMonitor{}, VoidMonitor{}, &ExitMonitor{Base: CaptureBaseline(w, sc)}, FinalizerMonitor{}, PanicMonitor{}, OnceMonitor{}}
+				return []Monitor{ExposureMonitor{}, StepMonitor{}, BatchStatusMonitor{}, TrafficOrderMonitor{}, VoidMonitor{}, &ExitMonitor{Base: CaptureBaseline(w, sc)}, FinalizerMonitor{}, PanicMonitor{}, OnceMonitor{}, &DiffMonitor{S: NewDiffShared()}}
 			}},
 		"C09": {Scenarios: []string{"Q01", "Q01b", "Q05", "Q08"}, Actions: []string{"jump(-1)", "jump(0)", "jump(1)", "jump(2)", "jump(3)", "jump(4)", "jump(2147483647)", "dropLastStep", "deleteRollout", "disable"}, MaxUser: 2,
 			FreeQueues: true, StateCap: capQ, Monitors: func(w *World, sc *Scenario) []Monitor { return []Monitor{PanicMonitor{}} }},
